@@ -78,6 +78,18 @@ func SelectPre(site int) {
 
 func Woke(site int) { Yield(site) }
 
+// ---- sync/atomic -----------------------------------------------------------
+// Atomic operations are not blocking, but code that combines several of them
+// (check-then-act) is only correct under some interleavings: every atomic
+// operation is followed by a scheduling point.
+
+// After is a scheduling point placed right after the evaluation of v (an atomic
+// operation's result).
+func After[T any](v T, site int) T {
+	Yield(site)
+	return v
+}
+
 // ---- WaitGroup --------------------------------------------------------------
 
 func WGWait(wg *sync.WaitGroup, site int) {
